@@ -3,6 +3,8 @@ package gram
 import (
 	"errors"
 
+	"github.com/opsidian/parsley/ast"
+
 	"github.com/opsidian/parsley/combinator"
 	"github.com/opsidian/parsley/data"
 	"github.com/opsidian/parsley/parsley"
@@ -415,6 +417,7 @@ func C06_FurthestFailure() {
 
 type snap struct {
 	node parsley.Node
+	tree frozen
 	text string
 	who  string
 }
@@ -422,6 +425,108 @@ type snap struct {
 type snapLog struct {
 	snaps []snap
 	base  int
+	// nodes a RightTrim received directly as its operand's result (the known
+	// finding is RightTrim moving the end of exactly such a node in place)
+	trimmed []parsley.Node
+}
+
+type trimProbe struct {
+	inner parsley.Parser
+	log   *snapLog
+}
+
+func (p *trimProbe) Parse(ctx *parsley.Context, lrc data.IntMap, pos parsley.Pos) (parsley.Node, data.IntSet, parsley.Error) {
+	n, cp, err := p.inner.Parse(ctx, lrc, pos)
+	for _, alt := range Alternatives(n) {
+		p.log.trimmed = append(p.log.trimmed, alt)
+	}
+	return n, cp, err
+}
+
+// frozen is a deep copy of what a node read like when it was returned,
+// keeping the identity of every node in it.
+type frozen struct {
+	n    parsley.Node
+	head string
+	end  int
+	kids []frozen
+}
+
+func freeze(n parsley.Node, base int) frozen {
+	f := frozen{n: n}
+	switch t := n.(type) {
+	case nil:
+		f.head = "nil"
+		return f
+	case ast.NodeList:
+		f.head = "LIST"
+		for _, e := range t {
+			f.kids = append(f.kids, freeze(e, base))
+		}
+		return f
+	case *ast.NonTerminalNode:
+		for _, c := range t.Children() {
+			f.kids = append(f.kids, freeze(c, base))
+		}
+	}
+	f.head = kindOf(n) + "(" + n.Token() + ")@" + itoa(int(n.Pos())-base)
+	f.end = int(n.ReaderPos()) - base
+	return f
+}
+
+func kindOf(n parsley.Node) string {
+	switch n.(type) {
+	case ast.EmptyNode:
+		return "E"
+	case *ast.TerminalNode:
+		return "T"
+	case *ast.NonTerminalNode:
+		return "N"
+	}
+	return "?"
+}
+
+// masked renders with the end of every direct RightTrim operand hidden.
+func (l *snapLog) maskedFrozen(f frozen) string {
+	s := f.head
+	if f.head != "nil" && f.head != "LIST" {
+		if l.wasTrimOperand(f.n) {
+			s += "-*"
+		} else {
+			s += "-" + itoa(f.end)
+		}
+	}
+	if len(f.kids) > 0 {
+		s += "{"
+		for _, k := range f.kids {
+			s += l.maskedFrozen(k) + " "
+		}
+		s += "}"
+	}
+	return s
+}
+
+func (l *snapLog) maskedNow(n parsley.Node, base int) string {
+	return l.maskedFrozen(freeze(n, base))
+}
+
+// onlyTrimmedMoved: every difference between what the node read like when it
+// was returned and what it reads like now is the end of a node that a
+// RightTrim was given directly (compared by identity).
+func (l *snapLog) onlyTrimmedMoved(s snap, base int) bool {
+	return l.maskedFrozen(s.tree) == l.maskedNow(s.node, base)
+}
+
+func (l *snapLog) wasTrimOperand(n parsley.Node) bool {
+	switch n.(type) {
+	case *ast.TerminalNode, *ast.NonTerminalNode:
+		for _, t := range l.trimmed {
+			if t == n {
+				return true
+			}
+		}
+	}
+	return false
 }
 
 type snapProbe struct {
@@ -433,7 +538,7 @@ type snapProbe struct {
 func (p *snapProbe) Parse(ctx *parsley.Context, lrc data.IntMap, pos parsley.Pos) (parsley.Node, data.IntSet, parsley.Error) {
 	n, cp, err := p.inner.Parse(ctx, lrc, pos)
 	if n != nil {
-		p.log.snaps = append(p.log.snaps, snap{node: n, text: Render(n, p.log.base), who: p.who})
+		p.log.snaps = append(p.log.snaps, snap{node: n, tree: freeze(n, p.log.base), text: Render(n, p.log.base), who: p.who})
 	}
 	return n, cp, err
 }
@@ -465,9 +570,10 @@ func C07_Immutable() {
 		return func(p parsley.Parser) parsley.Parser { return &snapProbe{inner: p, who: who, log: log} }
 	}
 	w := &Wrap{
-		Leaf: func(ge *G, p parsley.Parser) parsley.Parser { return mk("terminal")(p) },
-		Node: func(ge *G, p parsley.Parser) parsley.Parser { return mk(kindName(ge.K))(p) },
-		NT:   func(i int, p parsley.Parser) parsley.Parser { return mk("nonterminal " + itoa(i))(p) },
+		Leaf:        func(ge *G, p parsley.Parser) parsley.Parser { return mk("terminal")(p) },
+		Node:        func(ge *G, p parsley.Parser) parsley.Parser { return mk(kindName(ge.K))(p) },
+		NT:          func(i int, p parsley.Parser) parsley.Parser { return mk("nonterminal " + itoa(i))(p) },
+		TrimOperand: func(p parsley.Parser) parsley.Parser { return &trimProbe{inner: p, log: log} },
 	}
 	bt := Build(g, w)
 	root := combinator.Sentence(bt.Root)
@@ -481,7 +587,7 @@ func C07_Immutable() {
 	for _, s := range log.snaps {
 		now := Render(s.node, e.base)
 		if now != s.text {
-			if g.HasTrim() && sameButEnds(now, s.text) {
+			if g.HasTrim() && log.onlyTrimmedMoved(s, e.base) {
 				// RightTrim moved the end of a node another holder also has
 				rt.Fail("rtrim-moved-end-of-shared-node", g.Name+" on "+showInput(in)+": a result of "+s.who+" was "+s.text+" when returned and reads "+now+" at the end of the parse")
 				return
